@@ -24,6 +24,7 @@ type rw struct {
 	logN  int
 	np    int
 	ntt   bool
+	qbits int // bit size of the primes of Q (45, or 61: the largest size, where lazily accumulated sums are closest to 2^64)
 	built bool
 	p     rlwe.Parameters
 	sk    *rlwe.SecretKey
@@ -33,7 +34,12 @@ type rw struct {
 const rwLogScale = 80
 
 func newRW(logN, np int, ntt bool) *rw {
-	return &rw{name: fmt.Sprintf("rlwe/logN%d-P%d-ntt%v", logN, np, ntt), logN: logN, np: np, ntt: ntt}
+	return &rw{name: fmt.Sprintf("rlwe/logN%d-P%d-ntt%v", logN, np, ntt), logN: logN, np: np, ntt: ntt, qbits: 45}
+}
+
+// newRWBig: all primes of Q and P have 61 bits.
+func newRWBig(logN, np int, ntt bool) *rw {
+	return &rw{name: fmt.Sprintf("rlwe/logN%d-P%d-ntt%v-q61", logN, np, ntt), logN: logN, np: np, ntt: ntt, qbits: 61}
 }
 
 func (w *rw) ensure(c *engine.Chooser) {
@@ -44,6 +50,10 @@ func (w *rw) ensure(c *engine.Chooser) {
 	lit := rlwe.ParametersLiteral{LogN: w.logN, Q: uni.Primes(w.logN, 45, 3), NTTFlag: w.ntt}
 	if w.np > 0 {
 		lit.P = uni.Primes(w.logN, 61, w.np)
+	}
+	if w.qbits == 61 {
+		all := uni.Primes(w.logN, 61, 3+w.np)
+		lit.Q, lit.P = all[:3], all[3:]
 	}
 	w.p = uni.RLWE(lit)
 	w.sk = rlwe.NewKeyGenerator(w.p).GenSecretKeyNew()
